@@ -586,6 +586,50 @@ def settle (s : Store) (m : UInt32) (askId bidId : UInt64) (expectPartial : Bool
         | some (some (left, filled)) => settlePartial s left filled
     | _, _ => none
 
+/-! ### User settlements: `FillBids` / `FillAsks` (fulfillment.go:42,138) -/
+
+/-- `sdk.Coins.AmountOf` on a list of (denom, amount) pairs -/
+def coinAmountOf (cs : List (Bytes × Nat)) (d : Bytes) : Nat :=
+  (cs.filter (fun c => c.1 = d)).foldl (fun n c => n + c.2) 0
+
+/-- `sdk.Coins.Equal` on normalised coins: the same amount of every denom -/
+def coinsEqual (a b : List (Bytes × Nat)) : Bool :=
+  (a ++ b).all fun c => coinAmountOf a c.1 = coinAmountOf b c.1
+
+/-- `getBidOrders` / `getAskOrders` orders.go:496,536 called by a user settlement: every id must be an
+order of the wanted type in market `m` whose owner STRING differs from the filler's (`buyer == seller`
+orders.go:523,563 compares strings: same account AND same spelling). -/
+def getOrdersToFill (s : Store) (m : UInt32) (wantBid : Bool) (filler : Bytes) (fillerUp : Bool) :
+    List UInt64 → Option (List Order)
+  | [] => some []
+  | id :: r =>
+    match getOrderFromStore s id with
+    | none => none
+    | some o =>
+      if o.isBid ≠ wantBid ∨ o.market ≠ m ∨ (o.owner = filler ∧ o.ownerUp = fillerUp) then none
+      else (getOrdersToFill s m wantBid filler fillerUp r).map (o :: ·)
+
+/-- what the message's total is compared with (`sumAssetsAndPrice` fulfillment.go:66,162): the ASSETS of
+the bids a seller fills (`TotalAssets` is `sdk.Coins`: the bids may be for several asset denoms), the
+PRICES of the asks a buyer fills (`TotalPrice` is one coin) -/
+def fillSum (wantBid : Bool) (os : List Order) : List (Bytes × Nat) :=
+  os.map fun o => if wantBid then (o.assetDenom, o.assetAmt) else (o.priceDenom, o.priceAmt)
+
+/-- `FillBids` (`wantBid = true`, the filler sells) / `FillAsks` (`wantBid = false`, the filler buys)
+fulfillment.go:42,138 with the messages' `ValidateBasic` (x/exchange/msgs.go:157,197; order ids
+non-empty, no zero, no duplicate orders.go:87), on the harness's markets (user settlement allowed, no
+fees, no required attributes; transfers assumed funded).  Every listed order is filled in FULL:
+`closeSettlement` fulfillment.go:307-309 deletes and de-indexes each of them. -/
+def fillOrders (s : Store) (m : UInt32) (wantBid : Bool) (filler : Bytes) (fillerUp : Bool)
+    (ids : List UInt64) (total : List (Bytes × Nat)) : Option Store :=
+  if m = 0 ∨ filler = [] ∨ ids = [] ∨ (0 : UInt64) ∈ ids ∨ ¬ ids.Nodup ∨ total.all (fun c => c.2 = 0) then none
+  else if ¬ isMarketKnown s m ∨ ¬ isMarketAcceptingOrders s m then none
+  else match getOrdersToFill s m wantBid filler fillerUp ids with
+    | none => none
+    | some os =>
+      if ¬ coinsEqual (fillSum wantBid os) total then none
+      else some (os.foldl deleteAndDeIndexOrder s)
+
 /-! ### Commitments (commitments.go) -/
 
 def getCommitmentAmount (s : Store) (m : UInt32) (a : Bytes) : Nat :=
@@ -755,6 +799,8 @@ inductive Op
   | cancel (id : UInt64) (signer : Bytes) (signerUp : Bool)
   | setExt (m : UInt32) (id : UInt64) (ext : Bytes) (signer : Bytes)
   | settle (m : UInt32) (askId bidId : UInt64) (expectPartial : Bool) (signer : Bytes)
+  | fill (m : UInt32) (wantBid : Bool) (filler : Bytes) (fillerUp : Bool) (ids : List UInt64)
+      (total : List (Bytes × Nat))
   | commit (m : UInt32) (a : Bytes) (amt : Nat)
   | release (m : UInt32) (a : Bytes) (amt : Nat) (signer : Bytes)
   | pay (p : Payment)
@@ -784,6 +830,7 @@ def apply (st : State) : Op → Option (State × Res)
     else withKv st (cancelOrder st.kv id signer up)
   | .setExt m id ext signer => withKv st (setOrderExternalID st.kv m id ext signer)
   | .settle m a b p signer => withKv st (settle st.kv m a b p signer)
+  | .fill m wb f fu ids total => withKv st (fillOrders st.kv m wb f fu ids total)
   | .commit m a amt => withKv st (commitFunds st.kv m a amt)
   | .release m a amt signer => withKv st (marketReleaseCommitment st.kv m a amt signer)
   | .pay p => withKv st (createPayment st.kv p)
